@@ -633,39 +633,45 @@ def writes_after_guard(P, fn_qual, rel, a_rx, b_rx=None, root_local=1):
 
 
 # ------------------------------------------------------------------------------ inventories (reference = today's reviewed tree)
-def guard_inventory(P, fn_rx):
-    """{fn qual: Counter((rel, errs))} for all functions whose qual matches fn_rx"""
-    rx = re.compile(fn_rx)
+def guard_inventory(P, files):
+    """{source file: {"fails-when REL => ERRORS": count}} over the functions (and closures) defined in `files`"""
     out = {}
-    for fn in P.fns.values():
-        if not rx.search(fn['qual']) or fn['crate'] not in ('mls_rs', 'mls_rs_core', 'mls_rs_codec', 'mls_rs_identity_x509', 'mls_rs_provider_sqlite'):
+    hints = {}
+    for fn in fns_in_files(P, files):
+        if fn.get('mac'):
             continue
         gs = guards_of(P, fn)
-        if gs:
-            c = collections.Counter()
-            for g in gs:
-                c['%s => %s' % (g.rel, ','.join(sorted(g.errs)))] += 1
-            out[fn['qual']] = dict(c)
+        fl = fn['loc'].rsplit(':', 1)[0]
+        for g in gs:
+            k = '%s => %s' % (g.rel, ','.join(sorted(g.errs)))
+            out.setdefault(fl, {})
+            out[fl][k] = out[fl].get(k, 0) + 1
+            hints.setdefault(fl, {}).setdefault(k, set()).add(owner_qual(P, fn))
+    guard_inventory.hints = {f: {k: sorted(v) for k, v in d.items()} for f, d in hints.items()}
     return out
 
 
-def err_inventory(P, fn_rx, enum_rx=r'(MlsError|mls_rs_codec::Error)'):
-    """{fn qual: sorted error variants constructed in the function or its closures}"""
-    rx = re.compile(fn_rx)
+def err_inventory(P, files, enum_rx=r'(MlsError|mls_rs_codec::Error|SqLiteDataStorageError)'):
+    """{source file: {error variant: number of construction sites}}"""
     erx = re.compile(enum_rx)
-    out = collections.defaultdict(set)
-    for fn in P.fns.values():
-        oq = owner_qual(P, fn)
-        if not rx.search(oq):
+    out = {}
+    hints = {}
+    for fn in fns_in_files(P, files):
+        if fn.get('mac'):
             continue
+        fl = fn['loc'].rsplit(':', 1)[0]
         for b in fn['blocks']:
             if b.get('cu'):
                 continue
             for st in b['st']:
                 rv = st['rv']
                 if rv['k'] == 'agg' and rv['what'].startswith('adt:') and erx.search(rv['what']):
-                    out[oq].add(rv['what'].split('::')[-1])
-    return {k: sorted(v) for k, v in out.items()}
+                    v = rv['what'].split('::')[-1]
+                    out.setdefault(fl, {})
+                    out[fl][v] = out[fl].get(v, 0) + 1
+                    hints.setdefault(fl, {}).setdefault(v, set()).add(owner_qual(P, fn))
+    err_inventory.hints = {f: {k: sorted(v) for k, v in d.items()} for f, d in hints.items()}
+    return out
 
 
 def inventory_check(current, baseline, what, describe):
@@ -1146,6 +1152,32 @@ def normalise_operand(s):
     return s
 
 
+def canonical_condition(rel):
+    """polarity-free key of a condition: `a != b` and `a == b`, `a < b` and `b <= a`, `c` and `!c` share one key (which side of a
+    branch is taken is not visible reliably -- MIR folds `!` into the branch targets -- and is the business of the GUARD rules)"""
+    if rel[0] in ('truth', 'not'):
+        txt = normalise_operand(rel[1])
+        while txt.startswith('Not::not(') and txt.endswith(')'):
+            txt = txt[len('Not::not('):-1]
+        while txt.startswith('Not(') and txt.endswith(')'):
+            txt = txt[4:-1]
+        if txt in ('_', 'const 0', 'const 1') or re.fullmatch(r'[{}|_ const01]+', txt):
+            return None        # flags / desugared `&&`/`||` temporaries
+        return txt
+    a, c = normalise_operand(rel[1]), normalise_operand(rel[2])
+    r_ = rel[0]
+    if r_ in ('==', '!='):
+        a, c = sorted((a, c))
+        return '%s == %s' % (a, c)
+    if r_ in ('>', '>='):
+        a, c = c, a
+        r_ = {'>': '<', '>=': '<='}[r_]
+    # `a < b` and its negation `b <= a` are one family
+    f1 = '%s %s %s' % (a, r_, c)
+    f2 = '%s %s %s' % (c, '<=' if r_ == '<' else '<', a)
+    return min(f1, f2)
+
+
 def fns_in_files(P, files):
     fs = tuple(files)
     out = []
@@ -1183,22 +1215,9 @@ def condition_inventory(P, files):
             if gx is None:
                 gx = GuardExtractor(body)
             rel = gx.cond_of_local(l)
-            if rel[0] in ('truth', 'not'):
-                txt = normalise_operand(rel[1])
-                if txt in ('_', '{_|_}', 'const 0', 'const 1') or re.fullmatch(r'[{}|_ const01]+', txt):
-                    continue        # drop flags / desugared `&&`/`||` temporaries
-                key = ('' if rel[0] == 'truth' else '!') + txt
-                key = key.replace('!Not::not(', '(').replace('Not::not(', '!(') if key.startswith(('!Not::not(', 'Not::not(')) else key
-            else:
-                a, c = normalise_operand(rel[1]), normalise_operand(rel[2])
-                r_ = rel[0]
-                # canonical operand order; `a < b` == `b > a`; polarity is not part of the key (which side is taken is)
-                if r_ in ('>', '>='):
-                    a, c = c, a
-                    r_ = {'>': '<', '>=': '<='}[r_]
-                if r_ in ('==', '!=') and c < a:
-                    a, c = c, a
-                key = '%s %s %s' % (a, r_, c)
+            key = canonical_condition(rel)
+            if key is None:
+                continue
             fl = fn['loc'].rsplit(':', 1)[0]
             out.setdefault(fl, {})
             out[fl][key] = out[fl].get(key, 0) + 1
